@@ -226,16 +226,12 @@ def check_results(d, ks, n=2):
     return check
 
 
-def blen(tier, bound):
-    """Number of array elements each thread validates: one when two preemptions are explored in the quick tier."""
-    return 1 if (tier == "quick" and bound >= 2) else 2
-
-
 def part_b_configs(tier):
-    # (thread variants, granularity, preemption bound)
+    # (thread variants, granularity, preemption bound, array elements validated by each thread)
     if tier == "quick":
-        return [((0, 1), "call", 2), ((0, 1), "line", 1), ((0, 1, 2), "call", 1)]
-    return [((0, 1), "call", 3), ((0, 1), "line", 2), ((0, 1, 2), "call", 2), ((1, 2), "line", 2)]
+        return [((0, 1), "call", 2, 1), ((0, 1), "line", 1, 2), ((0, 1, 2), "call", 1, 2)]
+    return [((0, 1), "call", 2, 2), ((0, 1), "line", 2, 1), ((0, 1, 2), "call", 2, 1), ((1, 2), "line", 1, 2),
+            ((2, 0), "call", 2, 2)]
 
 
 def cs_configs(tier):
@@ -260,11 +256,11 @@ def plan(ctx):
         sizes["partA_configs_d%d" % d] = na
     drafts_b = (7, 3) if ctx.tier == "quick" else _e1.DRAFTS
     for d in drafts_b:
-        for bi, (ks, gran, bound) in enumerate(part_b_configs(ctx.tier)):
+        for bi, (ks, gran, bound, nlen) in enumerate(part_b_configs(ctx.tier)):
             if ctx.tier == "quick" and d == 3 and bi > 0:
                 continue        # draft 3 (extends / disallow): two threads, call granularity, bound 2 only
             # root run to learn the number of scheduling points, then shard by first deviation
-            s = threads.Sched(bodies_for(d, ks, blen(ctx.tier, bound)), [], PKG, gran)
+            s = threads.Sched(bodies_for(d, ks, nlen), [], PKG, gran)
             _, pts = s.run()
             n = len(pts)
             sizes["partB_points_d%d_%s_%s" % (d, "+".join(map(str, ks)), gran)] = n
@@ -339,8 +335,7 @@ def run_unit(unit, ctx):
                 "counters": {"states": r["schedules"], "transitions": r["steps"],
                              "traces_validated_against_impl": r["schedules"], "checkschema_schedules": r["schedules"]}}
     _, d, bi, lo, hi = unit
-    ks, gran, bound = part_b_configs(ctx.tier)[bi]
-    nlen = blen(ctx.tier, bound)
+    ks, gran, bound, nlen = part_b_configs(ctx.tier)[bi]
     r = threads.explore(lambda: bodies_for(d, ks, nlen), check_results(d, ks, nlen), PKG, gran, bound, (lo, hi))
     for choices, bad in r["problems"]:
         viol.append({"signature": "C18|threads|%s|%d-threads" % (gran, len(ks)), "size": len(choices),
